@@ -702,6 +702,11 @@ impl Session {
             return;
         }
 
+        #[cfg(feature = "verif")]
+        if let Some(log) = self.verif_spawned.as_mut() {
+            log.push("peer");
+        }
+
         let mut peer_handler = PeerHandler::new(
             addr.clone(),
             self.own_id,
